@@ -420,7 +420,9 @@ def _job_entry(args):
     err = None
     IN_JOB = True
     try:
-        if job.get("kind") == "__explicit__":
+        if job.get("kind") == "__optimized__":
+            run_optimized(mod, rec)
+        elif job.get("kind") == "__explicit__":
             reg_cases, explicit = explicit_and_regression_cases(mod)
             run_cases(mod, reg_cases + explicit, rec, stop_at_first=False)
             rec.extra["regression_cases"] += len(reg_cases)
@@ -440,6 +442,25 @@ def _job_entry(args):
     d["job"] = job.get("name", "?")
     d["wall"] = time.time() - t0
     return d
+
+
+def run_optimized(mod, rec):
+    """The deterministic members of a property once more in a `python -O` child: the library must not
+    lean on assert statements (or __debug__) for its behaviour."""
+    import subprocess
+
+    r = subprocess.run(
+        [sys.executable, "-O", "-m", "vf.optrun", mod.ID], cwd=VERIF_DIR, capture_output=True, text=True,
+        env=dict(os.environ, PYTHONOPTIMIZE="1"), timeout=600)
+    lines = [ln for ln in r.stdout.splitlines() if ln.startswith("OPTRUN ")]
+    if r.returncode != 0 or not lines:
+        raise HarnessError(f"python -O child failed: {r.returncode} {r.stderr[-800:]}")
+    out = json.loads(lines[-1][7:])
+    rec.extra["cases_under_python_O"] += out["evaluations"]
+    rec.evaluations += out["evaluations"]
+    rec.classes["run_under_python_O"] += out["evaluations"]
+    for case, msg in out["failures"]:
+        rec.failures.append((dict(case, python_O=True) if isinstance(case, dict) else case, "under python -O: " + msg))
 
 
 def run_jobs(mod, jobs, procs=None, stall_limit=300):
